@@ -960,6 +960,15 @@ class Interp:
         c = self.contracts.get(f.qualname)
         if c is not None:
             return c(self, f, args, kwargs, node)
+        if any(_dec_name(d) in ('lru_cache', 'cache', 'cached_property') for d in getattr(f, 'decorators', []) or []):
+            # a memoised function answers from its cache: its result is a function of the arguments only (and of
+            # whatever the state was at the first call) - never of the current state
+            from .libops import _single_atom
+            key = []
+            for a in args[1:] if f.cls is not None else args:
+                key.append(zi(a) if is_intlike(a) else z3.IntVal(0))
+            fn = z3.Function('memo.' + f.name, *([z3.IntSort()] * (len(key) + 1)))
+            return atom_str(fn(*key)) if key else atom_str(z3.Int('memo.' + f.name))
         return self.inline(f, args, kwargs, node)
 
     def bind(self, f, args, kwargs):
@@ -1021,6 +1030,16 @@ class Interp:
         finally:
             self.call_depth -= 1
         return None
+
+
+def _dec_name(d):
+    if isinstance(d, ast.Name):
+        return d.id
+    if isinstance(d, ast.Attribute):
+        return d.attr
+    if isinstance(d, ast.Call):
+        return _dec_name(d.func)
+    return ''
 
 
 def _zt(b):
